@@ -425,6 +425,20 @@ class Layer(object):
         if layer_instance.name in self.__layers:
             del self.__layers[layer_instance.name]
 
+            # Memoised lookups anywhere in the stack may still reference the
+            # removed layer or one of its sub-layers: forget them all.
+            root = self
+            while root.parent is not None:
+                root = root.parent
+            root.clear_layer_cache()
+
+    def clear_layer_cache(self):
+        '''Forget memoised layer lookups of this layer and of its sub-layers.
+        '''
+        self.__layer_cache = {}
+        for layer in self.__layers.values():
+            layer.clear_layer_cache()
+
     def register_monitor_callback(self, callback):
         '''Register a callback to monitor messages sent between layers.
         '''
